@@ -570,7 +570,8 @@ package sizes
 //@ property C10: ScanRepositoryUsingGraph ScanRepositoryUsingGraph$1$1
 //@ property C18: ScanRepositoryUsingGraph
 
-//@ func CollectReferences
+//@ assumed func CollectReferences
+//@   trust A-CALLEE-UNVERIFIED
 //@   modifies everything
 
 //@ func (*NameStyle).Set
